@@ -187,8 +187,12 @@ func (d *disconnectHandler) handleDisconnect() {
 
 // handleGracePeriodExpired is called when grace period expires
 func (d *disconnectHandler) handleGracePeriodExpired() {
+	// d.mu only guards the timer bookkeeping. It is released before demoting:
+	// becomeFollower takes the election mutex, which Stop holds while it takes
+	// d.mu (lock-order inversion), and OnDemote is user code that may call Stop.
 	d.mu.Lock()
-	defer d.mu.Unlock()
+	disconnectedAt := d.disconnectedAt
+	d.mu.Unlock()
 
 	if d.election.connectionMonitor != nil {
 		if d.election.connectionMonitor.Status() != ConnectionStatusDisconnected {
@@ -204,7 +208,7 @@ func (d *disconnectHandler) handleGracePeriodExpired() {
 	// Still disconnected, demote if still leader
 	if d.election.isLeader.Load() {
 		log := d.election.getLogger()
-		disconnectedDuration := time.Since(d.disconnectedAt)
+		disconnectedDuration := time.Since(disconnectedAt)
 		log.Error("demoting_due_to_connection_loss",
 			append(d.election.logWithContext(d.election.ctx),
 				zap.Duration("disconnected_duration", disconnectedDuration),
